@@ -542,6 +542,15 @@ impl Driver for C16 {
                     _ => {}
                 }
             }
+            if m.sense != Sense::Satisfy && rng.gen_bool(0.12) {
+                // one dominant term: good solutions then differ by a tiny fraction of the objective, and every door
+                // must still return the same one
+                let ints: Vec<usize> = (0..m.n()).filter(|i| matches!(m.types[*i], VT::Bool | VT::Int(..))).collect();
+                if let Some(&i) = ints.first() {
+                    let k = if m.sense == Sense::Max { 100000.0 } else { -100000.0 };
+                    m.obj = E::add(m.obj.clone(), E::mul(E::Num(k), E::Var(i)));
+                }
+            }
             let unused = if rng.gen_bool(0.3) {
                 m.names.push("unused_var".to_string());
                 m.types.push(match rng.gen_range(0..4) {
